@@ -23,6 +23,7 @@ type Obligation struct {
 	Goal   string
 	Cover  bool // must be SAT (vacuity guard)
 	AllAxioms bool
+	Quick  bool // only a short attempt (reachability covers)
 	Inputs []modelVar
 	// results
 	Status string // unsat / sat / unknown / timeout
